@@ -1,6 +1,6 @@
 SPECIFICATION TraceSpec
 CONSTANTS
   AllocBase = 65536
-  AllocPerByte = 2048
+  AllocPerByte = 3072
 INVARIANT Report
 CHECK_DEADLOCK FALSE
